@@ -25,6 +25,7 @@ type SV struct {
 type specEnv struct {
 	facts []string // type facts of the values mentioned (always true; assumed before use)
 	axioms []string // closed defining axioms of opaque predicates used
+	predPkg string  // import path of the package whose predicate is being expanded
 	x     *Exec
 	st    *State
 	old   *State
@@ -369,6 +370,14 @@ func (e *specEnv) ident(name string) SV {
 	if pkg != nil {
 		if sv, ok := e.member(pkg, name); ok {
 			return sv
+		}
+	}
+	// inside a predicate of another package: that package's names
+	if e.predPkg != "" && fn.Prog != nil {
+		if hp := fn.Prog.ImportedPackage(e.predPkg); hp != nil {
+			if sv, ok := e.member(hp, name); ok {
+				return sv
+			}
 		}
 	}
 	return e.fail("unknown identifier %q", name)
@@ -815,7 +824,10 @@ func (e *specEnv) call(n *ast.CallExpr) SV {
 			saved[pn], had[pn] = e.binds[pn]
 			e.binds[pn] = vals[i]
 		}
+		savedPkg := e.predPkg
+		e.predPkg = pd.Pkg
 		r := e.eval(pd.Expr)
+		e.predPkg = savedPkg
 		for _, pn := range pd.Params {
 			if had[pn] {
 				e.binds[pn] = saved[pn]
